@@ -17,7 +17,7 @@ What is demanded (property statement, nothing more):
   i.e. u' solves u' = (u + incr) + dt f(u')   (closed form for the linear test rate)
 * alpha = 0 (ito), 1/2 (stratonovich), 1 (anti-ito); var, var' evaluated at the state *before* the step
 * agreement to 1e-12 relative to max(1, |u|): every step is <= 12 flops, at most five steps, errors
-  grow like the state itself: round-off <= 1e-14 (observed <= 1e-15); anything realistic that is
+  grow like the state itself: round-off <= 1e-14 (observed <= 4e-15); anything realistic that is
   wrong (power of dt or V, factor of the drift, order of draws) changes the result by > 1e-4.
   The semi-implicit iteration stops on an *absolute* criterion; it is run with
   maxerror = 1e-15 max(1, |u|) and the error that this stopping rule admits is added to the tolerance
